@@ -595,7 +595,10 @@ func c16RunSubscriber(c *sim.Ctx) {
 					c.S.Sleep(d)
 				}
 				ts := []*simrt.Task{c.S.Spawn("end", nil, func() { call(x, p2, reason, op.Arg(2)) })}
-				if op.Arg(3) == 1 {
+				// a Disconnect-Request addressed by Framed-IP legitimately ends whoever
+				// holds the address when it is processed: no newcomer may take the
+				// address over in the meantime, or the ledger would misattribute it
+				if op.Arg(3) == 1 && !(p2 == "disconnect" && op.Arg(2) == 1) {
 					ts = append(ts, newcomer())
 				}
 				c.S.Join(ts...)
@@ -604,7 +607,8 @@ func c16RunSubscriber(c *sim.Ctx) {
 			} else {
 				ts := []*simrt.Task{c.S.Spawn("end", nil, func() { call(x, p1, reason, op.Arg(2)) }),
 					c.S.Spawn("end", nil, func() { call(x, p2, reason, (op.Arg(2)+1)%3) })}
-				if op.Arg(3) == 1 {
+				byIP := (p1 == "disconnect" && op.Arg(2) == 1) || (p2 == "disconnect" && (op.Arg(2)+1)%3 == 1)
+				if op.Arg(3) == 1 && !byIP {
 					ts = append(ts, newcomer())
 				}
 				c.S.Join(ts...)
